@@ -379,7 +379,9 @@ pub fn gen_steps(g: &mut Gen, max_steps: usize, dt_max: f64, allow_engine_off: b
         let dt = dt.max(0.05);
         let engine_on = !(allow_engine_off && g.bool(0.12));
         let kind = if !engine_on {
-            [0u8, 2, 3][g.weighted(&[3, 1, 1])]
+            // with the engine off a positive demand must be rejected (absolute watts: the
+            // published traction limit is zero then)
+            [0u8, 2, 3, 4][g.weighted(&[6, 2, 2, 1])]
         } else {
             [1u8, 0, 2, 3, 4][g.weighted(&[8, 1, 3, 3, 1])]
         };
